@@ -181,8 +181,9 @@ func DialGitRepository(ctx context.Context, repoPath string, options *DialGitOpt
 			projectPath, version := path.Split(name.Short())
 			projectPath = path.Clean(projectPath)
 
-			if !semver.IsValid(version) {
-				// Skip this tag.
+			if !semver.IsValid(version) || semver.Canonical(version) != version {
+				// Skip this tag: only canonical versions can be named by a requirement (short forms such as v1.2
+				// and versions with build metadata are rejected when a configuration is loaded).
 				continue
 			}
 
